@@ -856,6 +856,7 @@ func (s *fileState) call(t *ast.CallExpr) {
 				"sync.RWMutex.TryLock": "RWTryLock", "sync.RWMutex.TryRLock": "RWTryRLock",
 				"sync.WaitGroup.Add": "WGAdd", "sync.WaitGroup.Done": "WGDone", "sync.WaitGroup.Wait": "WGWait",
 				"sync.Once.Do": "OnceDo",
+				"sync.Pool.Get": "PoolGet", "sync.Pool.Put": "PoolPut",
 			}
 			if r, ok := repl[key]; ok {
 				// x.Lock() -> zzsimrt.MutexLock(&x) ; x may be addressable value or pointer
